@@ -32,7 +32,7 @@ PAIR_QUERIES = [
 ASSUMPTIONS = [
     "Go strings are byte lists and cursors are suffixes in the model: index safety of validateStoryLine / extractAction / combineActs / compileV2 is not a theorem; it is part of the correspondence (a panic in the hook is a disagreement and an oracle failure)",
     "Go's regexp is NOT modelled: regexp.ReplaceAllString is a parameter of the model (every theorem about `edit` holds for every substitution function). In the cases an edit is either a quoted literal pattern with a $-free replacement (the oracle substitutes itself: leftmost, non-overlapping) or (b) a regular expression of the subset of Model/Regex.v (literals, ., sets, alternation, concatenation, greedy and lazy * + ?, ^ $; a fixed corpus where leftmost-first vs leftmost-longest, greedy vs lazy, empty vs non-empty matches differ, plus random ones), written twice by the generator - Go pattern text and Coq term - whose expected result comes from the oracle's OWN backtracking matcher and transcription of Go's replaceAll loop (nothing of Go's regexp is used to say what the edit must produce), or (c) a regular expression with captures / classes outside that subset ($n, \\b, (?i), {m,n}) whose substituted text the harness computes with a fresh, unmodified-by-the-parser call of Go's regexp on the storyline the hook reported before the clause (only the plumbing around the substitution is checked for those: join with one blank, re-validation, replacement of cfg.storyLine, refusal of malformed results)",
-    "strings.Split/TrimSpace/ReplaceAll/Join/HasSuffix, time.ParseDuration and Duration.String are modelled or used by the harness, and exercised by the cases, not verified; white space other than ' ' inside a clause and negative tempos are outside the oracle's domain (still compared with the model)",
+    "strings.Split/TrimSpace/ReplaceAll/Join/HasSuffix, time.ParseDuration and Duration.String are modelled or used by the harness, and exercised by the cases, not verified; the oracle reads a clause with all white space turned into blanks (Denote.blank_ws) provided every white-space run with a newline / tab between two acts also contains a blank (Denote.ws_ok: multi-line clauses, tabs next to blanks) - an oracle-level reading checked on the cases, the validateStoryLine theorems carry `blanks only`; runs without a blank and negative tempos are outside the oracle's domain (still compared with the model)",
     "the split of an entails action list at ';', identifier checks and the action-exists check are not modelled (the generator only names defined roles, actors and actions)",
     "the schedule reading of a play (waitUntil 0 = do not wait; scenes in order) is prompt.go's loop with actions that take no time; real timing is C04's",
     "times are int64 nanoseconds (time.Duration) end to end: tempo and waitUntil are compared as integers, never after formatting; the -p dump reaches Coq as raw bytes: the model's print_text must equal it byte for byte (fmt verbs and Duration.String are transcribed, not verified) and the oracle reads it with the proved reader of Model/StepsRead.v",
@@ -147,7 +147,7 @@ def run(tier, seed):
             "every single storyline clause of <= 6 bytes over {a,b,.,+,_,' '} through the real parser and compiler": summary["single_clause_exhaustive_len6"],
             "every pair of single-act clauses with valid acts of <= 3 bytes over {a,b,.,+,_}": summary["two_clauses_exhaustive_len3"],
         },
-        "rule": "pairs: (sampled in quick, all in thorough) pairs of the %d valid acts of <= 4 bytes over {a,b,.,+} plus random acts of up to 10 columns, through the real combineActs. scripts, all through the real parseScript clause by clause (cfg.storyLine recorded after each), then the whole text through reader + parseCfg + compileV2 + printSteps: single clauses of <= 6 bytes; 2-3 clauses of 1-2 acts of <= 5 bytes over {a,b,.,+,_} (3%% malformed) with a fixed set of definitions (single-actor and every-role entails over a two-actor role, several entails per scene, an entail without actions, mood starts and ends) and sometimes a literal edit; an edit-shapes stream (1-3 such clauses interleaved with edits from three sources: 20 literal replacements that introduce +, ., _ and blanks - new groups, split and joined acts; a corpus of 26 regular expressions plus random ones with a Coq twin, judged by the oracle's own leftmost-first matcher (a|ab, ab|a, b.*?, a*?, a*, (a|ab)(b|), ^, $, ' *' ...); 16 regular expressions with $n etc. whose result the harness supplies); a late-cast stream (cast / script / cast / script: scenes defined for `every <role>`, the role gains actors through a further cast section, then defined again for `every <role>` and for newcomers; the denotation resolves `every <role>` against the cast hired so far); random scripts (35%% with a further cast section between `every <role>` clauses; 1-3 cast entries incl. multi-actor ones, 1-5 scenes with shuffled entails / mood definitions incl. roles without actors, 1-4 clauses of 1-4 acts of up to 10 columns with + groups, . and _, 4%% malformed, literal edits with / , | separators and optional g and some regular-expression edits, definitions after the first storyline, 15 tempos incl. 0s, 2500us, 1.5ms, 999999ns, 33.333ms, 1h, 1h0m0.000000001s, tempo clause anywhere; every scene time compared in integer nanoseconds and the printed dump byte for byte). A sample is also run through the real binary (-n -p) and its dump compared with the hook's. non-trivial = accepted script with >= 2 storyline clauses or an edit AND a + group or a mood change in the result (distinct by text), or a pair of acts of >= 2 bytes each (distinct)." % summary["small_valid_acts_len4"],
+        "rule": "pairs: (sampled in quick, all in thorough) pairs of the %d valid acts of <= 4 bytes over {a,b,.,+} plus random acts of up to 10 columns, through the real combineActs. scripts, all through the real parseScript clause by clause (cfg.storyLine recorded after each), then the whole text through reader + parseCfg + compileV2 + printSteps: single clauses of <= 6 bytes; 2-3 clauses of 1-2 acts of <= 5 bytes over {a,b,.,+,_} (3%% malformed) with a fixed set of definitions (single-actor and every-role entails over a two-actor role, several entails per scene, an entail without actions, mood starts and ends) and sometimes a literal edit; an edit-shapes stream (1-3 such clauses interleaved with edits from three sources: 20 literal replacements that introduce +, ., _ and blanks - new groups, split and joined acts; a corpus of 26 regular expressions plus random ones with a Coq twin, judged by the oracle's own leftmost-first matcher (a|ab, ab|a, b.*?, a*?, a*, (a|ab)(b|), ^, $, ' *' ...); 16 regular expressions with $n etc. whose result the harness supplies); a multi-line stream (clauses written over several lines with the reader's backslash continuation, tabs next to blanks: must read like the one-line clause); an edits-first stream (the first clauses are edits of the EMPTY storyline with patterns that match the empty string - ^$, ^, $, (?:), a*, a|, .*? - seeding the storyline); a late-cast stream (cast / script / cast / script: scenes defined for `every <role>`, the role gains actors through a further cast section, then defined again for `every <role>` and for newcomers; the denotation resolves `every <role>` against the cast hired so far); random scripts (35%% with a further cast section between `every <role>` clauses; 1-3 cast entries incl. multi-actor ones, 1-5 scenes with shuffled entails / mood definitions incl. roles without actors, 1-4 clauses of 1-4 acts of up to 10 columns with + groups, . and _, 4%% malformed, literal edits with / , | separators and optional g and some regular-expression edits, definitions after the first storyline, 15 tempos incl. 0s, 2500us, 1.5ms, 999999ns, 33.333ms, 1h, 1h0m0.000000001s, tempo clause anywhere; every scene time compared in integer nanoseconds and the printed dump byte for byte). A sample is also run through the real binary (-n -p) and its dump compared with the hook's. non-trivial = accepted script with >= 2 storyline clauses or an edit AND a + group or a mood change in the result (distinct by text), or a pair of acts of >= 2 bytes each (distinct)." % summary["small_valid_acts_len4"],
         "samples": summary["samples"],
         "distribution": {k: summary[k] for k in ("pairs", "scripts", "streams", "accepted", "refused", "with_edit",
                                                  "with_mood", "with_plus_group", "max_act_bytes", "max_acts",
